@@ -45,12 +45,12 @@ import (
 // ---------- trace ----------
 
 type OpRes struct {
-	Kind    string   `json:"kind"`
-	Code    string   `json:"code"` // "ok" or codespace/code of the error (messages are not consensus data)
-	Gas     uint64   `json:"gas,omitempty"`
-	Data    string   `json:"data,omitempty"` // sha256 of the result data / return value
-	Events  []string `json:"events"`
-	Info    string   `json:"info,omitempty"` // error text: informational only, never compared
+	Kind   string   `json:"kind"`
+	Code   string   `json:"code"` // "ok" or codespace/code of the error (messages are not consensus data)
+	Gas    uint64   `json:"gas,omitempty"`
+	Data   string   `json:"data,omitempty"` // sha256 of the result data / return value
+	Events []string `json:"events"`
+	Info   string   `json:"info,omitempty"` // error text: informational only, never compared
 }
 
 type BlockRes struct {
@@ -97,34 +97,34 @@ func digest(b []byte) string {
 // ---------- world ----------
 
 type world struct {
-	c      *lib.Chain
-	r      *lib.Rand
-	users  []lib.Key // eth keys (fx-core account type)
-	cusers []lib.Key // cosmos secp256k1 keys (migration sources, plain signers)
-	chains []string
-	xs     map[string]*lib.XChain // indexed, never ranged
-	toks   []*lib.Token
-	height uint64 // external block height counter for claims
-	voting int
-	bfCases []string
-	mode    string    // "plain" | "noise" (extra non-committed activity: Simulate/CheckTx) | "restart" (new app object on the same DB now and then)
-	nr      *lib.Rand // driver-side randomness of the mode (never influences the history)
-	noise   [][]byte  // transactions that are only simulated / check-tx'ed in noise mode, never delivered
-	execd   map[string]uint64
-	restarts, noises int
+	c                  *lib.Chain
+	r                  *lib.Rand
+	users              []lib.Key // eth keys (fx-core account type)
+	cusers             []lib.Key // cosmos secp256k1 keys (migration sources, plain signers)
+	chains             []string
+	xs                 map[string]*lib.XChain // indexed, never ranged
+	toks               []*lib.Token
+	height             uint64 // external block height counter for claims
+	voting             int
+	bfCases            []string
+	mode               string    // "plain" | "noise" (extra non-committed activity: Simulate/CheckTx) | "restart" (new app object on the same DB now and then)
+	nr                 *lib.Rand // driver-side randomness of the mode (never influences the history)
+	noise              [][]byte  // transactions that are only simulated / check-tx'ed in noise mode, never delivered
+	execd              map[string]uint64
+	restarts, noises   int
 	mustPass, votedAll map[uint64]bool // indexed only
-	sacrID     []byte
-	sacr       string // a sacrificial erc20 pair: its stored record gets corrupted by a passed MsgUpdateStore proposal
-	panicStage int    // 0 nothing yet, 1 corrupting proposal submitted, 2 toggle proposal (handler panics) submitted
-	migN   int
-	cur    []OpRes
-	stats  map[string]int
-	statK  []string
-	txs     [][]byte
-	txKinds []string
-	seqOff  map[string]uint64          // per block, indexed only
-	backlog map[string][]claimMaker    // per chain: claims by event nonce (index 0 = nonce base+1)
-	base    map[string]uint64
+	sacrID             []byte
+	sacr               string // a sacrificial erc20 pair: its stored record gets corrupted by a passed MsgUpdateStore proposal
+	panicStage         int    // 0 nothing yet, 1 corrupting proposal submitted, 2 toggle proposal (handler panics) submitted
+	migN               int
+	cur                []OpRes
+	stats              map[string]int
+	statK              []string
+	txs                [][]byte
+	txKinds            []string
+	seqOff             map[string]uint64       // per block, indexed only
+	backlog            map[string][]claimMaker // per chain: claims by event nonce (index 0 = nonce base+1)
+	base               map[string]uint64
 }
 
 type claimMaker struct {
@@ -810,7 +810,8 @@ func (w *world) votes() {
 	_ = c.App.GovKeeper.Keeper.Proposals.Walk(c.Ctx, nil, func(id uint64, p govv1.Proposal) (bool, error) {
 		if p.Status == govv1.StatusVotingPeriod {
 			ids = append(ids, id)
-			if len(p.Messages) > 0 && (p.Messages[0].TypeUrl == "/fx.gov.v1.MsgUpdateStore" || p.Messages[0].TypeUrl == "/fx.erc20.v1.MsgToggleTokenConversion") {
+			if len(p.Messages) > 0 && (p.Messages[0].TypeUrl == "/fx.gov.v1.MsgUpdateStore" || p.Messages[0].TypeUrl == "/fx.erc20.v1.MsgToggleTokenConversion" ||
+				p.Messages[0].TypeUrl == "/fx.erc20.v1.MsgRegisterCoin") {
 				w.mustPass[id] = true
 			}
 		}
@@ -841,6 +842,37 @@ func (w *world) votes() {
 			}
 		}
 	}
+}
+
+// competingRegisterCoin: proposals that PASS and FAIL AT EXECUTION for several reasons at once (the failure
+// reason — err.Error() of the handler — is stored in the proposal and emitted): two competing MsgRegisterCoin
+// proposals registering different coins under the same four bridge aliases end in the same block (the first
+// executes, the second finds every alias taken), and a third one reuses three aliases of an existing coin.
+func (w *world) competingRegisterCoin(block int) {
+	if block != 12 && block != 150 {
+		return
+	}
+	c := w.c
+	tag := fmt.Sprintf("%d", block)
+	var aliases []string
+	for i, ch := range []string{"eth", "bsc", "tron", "eth"} {
+		aliases = append(aliases, crosschaintypes.NewBridgeDenom(ch, lib.ExternalContract(c.Seed, ch, 7000+block+i)))
+	}
+	mk := func(sym string, al []string) sdk.Msg {
+		return &erc20types.MsgRegisterCoin{Authority: lib.GovAuthority(), Metadata: fxtypes.GetCrossChainMetadataManyToOne(sym+" coin", sym, 18, al...)}
+	}
+	submit := func(kind string, proposer lib.Key, m sdk.Msg) {
+		p, err := govv1.NewMsgSubmitProposal([]sdk.Msg{m}, sdk.NewCoins(lib.FX(10_000)), proposer.Acc().String(), "", kind, "summary", false)
+		lib.Must(err)
+		w.tx("SubmitProposal("+kind+")", proposer, p)
+	}
+	submit("RegisterCoin A", w.users[2], mk("CMPA"+tag, aliases))
+	submit("RegisterCoin B, same aliases", w.users[3], mk("CMPB"+tag, []string{aliases[2], aliases[0], aliases[3], aliases[1]}))
+	var taken []string
+	for _, a := range w.toks[1].Aliases {
+		taken = append(taken, a.Denom)
+	}
+	submit("RegisterCoin C, aliases of an existing coin", w.users[4], mk("CMPC"+tag, taken))
 }
 
 // panickingProposal: a proposal that PASSES and whose message handler PANICS (x/gov recovers the panic and
@@ -947,6 +979,7 @@ func (w *world) run(blocks int) []BlockRes {
 		}
 		w.votes()
 		w.panickingProposal(b)
+		w.competingRegisterCoin(b)
 		w.executePending()
 		w.stakeTraffic()
 		for _, ch := range w.chains { // lagging oracles catch up
